@@ -138,7 +138,7 @@ PLANS["C19"] = dict(kind="func", stages=[aws_stage([GRID_Q], [GRID_T], max_q=150
                     rule="provider level: every (min, desired, instance list, node list with members / foreign nodes at every position, failing terminate) of the grid run through the real "
                          "NodeGroup.DeleteNodes; controller level: order of cloud and Node deletes along histories and model states",
                     required_facts=["del-not-in-group", "del-all-terminated", "del-refused-whole", "del-terminate-failed"], assumptions=AWS_ASSUMPTIONS + COMMON_ASSUMPTIONS,
-                    also_ctl=ctl(["force"], ["reap", "force"],
+                    also_ctl=ctl(["force", "batches"], ["reap", "force", "batches"],
                                  [D("reap", faults=30, odd=True), D("mix", faults=25, lag=True)],
                                  [D("reap", n=60, steps=100, procs=8, faults=30, odd=True), D("mix", n=60, steps=100, procs=8, faults=25, lag=True)],
                                  "see provider level", ["C19:node-deletes", "C19:terminate-failed", "C19:not-in-group", "C19:down-to-minimum"]))
